@@ -144,3 +144,39 @@ def sensitivity(argv):
         sys.stdout.flush()
     print(f"sensitivity: {len(rows)} (patch, property) pairs, {missed} not detected")
     return 2 if missed else 0
+
+
+def benign(argv):
+    """False-alarm test: behaviour-preserving changes (/verif/benign/<id>/patch.diff: correct refactors of the evaluator and of the
+    pipeline written by independent agents, plus two of our own) are applied to a scratch copy; every check must stay quiet (exit 0)."""
+    names = [a for a in argv if not a.startswith("--")]
+    budget = os.environ.get("VERIF_SENS_BUDGET", "30")
+    rows, alarms = [], 0
+    for path in sorted(glob.glob(os.path.join(VERIF, "benign", "*", "patch.diff"))):
+        name = os.path.basename(os.path.dirname(path))
+        if names and name not in names:
+            continue
+        d = _scratch_copy()
+        try:
+            ap = subprocess.run(["patch", "-p1", "-s", "-i", path], cwd=d, capture_output=True, text=True)
+            if ap.returncode != 0:
+                rows.append((name, "PATCH-DOES-NOT-APPLY", ""))
+                alarms += 1
+                continue
+            for prop in ("C11", "C17", "C01"):
+                t0 = time.monotonic()
+                env = dict(os.environ, VERIF_REPO=d, VERIF_BUDGET=budget, VERIF_EVIDENCE_DIR=os.path.join(d, "evidence"),
+                           VERIF_REPLAY_DIR=os.path.join(d, "replays"))
+                cp = subprocess.run([CHECK, prop, "--tier", "quick"], cwd=VERIF, env=env, capture_output=True, text=True, timeout=3600)
+                quiet = cp.returncode == 0 and "VIOLATION" not in cp.stdout
+                if not quiet:
+                    alarms += 1
+                rows.append((name, prop, f"quiet={'yes' if quiet else 'NO'} rc={cp.returncode} {time.monotonic() - t0:.0f}s "
+                             + (cp.stdout.strip().splitlines()[0][:150] if cp.stdout.strip() else cp.stderr[-200:])))
+        finally:
+            shutil.rmtree(d, ignore_errors=True)
+    for r in rows:
+        print("benign", *r)
+        sys.stdout.flush()
+    print(f"benign: {len(rows)} (change, property) pairs, {alarms} alarms")
+    return 2 if alarms else 0
